@@ -259,7 +259,9 @@ OutputsValid == (Len(hist) > 0 /\ Last.def.st = "ok" /\ right.ver = 1) => WF(Out
 KnownDivergence ==
   /\ IsOp("combine") /\ Last.join = "outer" /\ Last.merge /\ Pre.ver = right.ver
   /\ SampleClash(Pre.ch, right.ch)
-ImplEqDef == (Len(hist) > 0 /\ Last.impl # Last.def) => KnownDivergence
+\* since the repair (fix: combine(join='outer', merge_channels=True) refuses ...) the two layers agree everywhere;
+\* KnownDivergence is kept as the description of the class the unrepaired code got wrong
+ImplEqDef == Len(hist) > 0 => Last.impl = Last.def
 \* and on that class the code accepts what the definition refuses, unless another section refuses too
 DivergenceIsSilentAccept ==
   (Len(hist) > 0 /\ Last.impl # Last.def) => (Last.def = Refuse(IWO) /\ Last.impl.st = "ok")
